@@ -88,6 +88,9 @@ type Model struct {
 // TooExpensive is panicked when the step budget is exceeded (the case is discarded, never judged).
 type TooExpensive struct{}
 
+// Unsupported is the panic value for a grammar construct the reference parser does not evaluate.
+type Unsupported struct{ Why string }
+
 func NewModel(g *Grammar, raw []Tok) *Model {
 	m := &Model{G: g, Raw: raw, ne: make([]int, len(raw)+1)}
 	for i, t := range raw {
@@ -319,7 +322,9 @@ func (m *Model) eval(e *Expr, pos int) Res {
 				break
 			}
 			if r.Pos == acc.Pos && e.Mod != "?" {
-				panic("gram: zero-progress repetition body (generator bug)")
+				// a repetition body that matches without consuming (the library's own "grammar bug" class; only the
+				// recursive systems of C08 contain such bodies, and they use this parser as a cost guard only)
+				panic(Unsupported{"zero-progress repetition body"})
 			}
 			acc.First, acc.Last = span(acc, r)
 			acc.Pos = r.Pos
